@@ -24,18 +24,21 @@ use tu_verif::run::Run;
 /// form a ZWJ sequence
 const SIGMA1: [&str; 11] = ["a", " ", "ä", "€", "😀", "\u{301}", "\r", "\n", "\u{200d}", "👩", "💻"];
 /// special-token spellings and their look-alike fragments next to multi-byte text
-const FRAGMENT_SETS: [[&str; 10]; 2] = [
+const FRAGMENT_SETS: [[&str; 10]; 3] = [
     ["<pad>", "<bos>", "<unk>", "<pa", "pad>", "<", ">", "ä", "a", "😀"],
     // for the special-token set with regular-expression metacharacters: the spellings themselves,
     // pieces of them, and texts an unescaped pattern would match ("B" for the class [B+S], "<eas" for
     // the dot, "x>" for the alternation and the question mark)
     ["[B+S]", "<e.s|x?>", "<unk>", "[B", "S]", "<eas|x?>", "B", "x>", "e", "ä"],
+    // for the special-token set whose bos and eos are a single byte each ("|" and LF): the byte ids of
+    // these bytes and the special ids of these tokens are different numbers
+    ["|", "\n", "<pad>", "<unk>", "a", "ä", "<", "pad>", " ", "\r"],
 ];
 /// symbols of the character tokenizer's alphabet (round trip)
 const SIGMA3: [&str; 7] = ["a", "Z", "0", "\"", "\\", " ", "~"];
 /// special-token sets [unk, bos, eos, pad]; the second one spells bos and eos with characters that
 /// are regular-expression metacharacters ([ ] + . | ?)
-const SPECIAL_SETS: [[&str; 4]; 2] = [["<unk>", "<bos>", "<eos>", "<pad>"], ["<unk>", "[B+S]", "<e.s|x?>", "<pad>"]];
+const SPECIAL_SETS: [[&str; 4]; 3] = [["<unk>", "<bos>", "<eos>", "<pad>"], ["<unk>", "[B+S]", "<e.s|x?>", "<pad>"], ["<unk>", "|", "\n", "<pad>"]];
 static VARIANT: std::sync::atomic::AtomicUsize = std::sync::atomic::AtomicUsize::new(0);
 
 fn variant() -> usize {
@@ -281,14 +284,19 @@ fn resolve_specials(tok: &dyn Tokenize) -> Result<(Vec<Vec<u8>>, HashMap<String,
     let mut ids = HashMap::new();
     for sp in *specials() {
         let at: Vec<usize> = (0..vocab.len()).filter(|i| vocab[*i] == sp.as_bytes()).collect();
-        if at.len() != 1 {
-            return Err(format!("the vocabulary lists {sp:?} at ids {at:?}, expected exactly one id"));
+        // a special token may be spelled like a regular token (a one-byte special token and the byte
+        // token of that byte): the special ids follow the regular ones, so the special id is the last
+        // listing; what token_to_id answers for such a spelling is C04's business, not C01's
+        let Some(&last) = at.last() else {
+            return Err(format!("the vocabulary does not list {sp:?}"));
+        };
+        if at.len() == 1 {
+            let via = catch(|| tok.token_to_id(sp)).map_err(|p| format!("token_to_id panicked: {p}"))?;
+            if via != Some(last as u32) {
+                return Err(format!("the vocabulary lists {sp:?} at id {last}, token_to_id gives {via:?}"));
+            }
         }
-        let via = catch(|| tok.token_to_id(sp)).map_err(|p| format!("token_to_id panicked: {p}"))?;
-        if via != Some(at[0] as u32) {
-            return Err(format!("the vocabulary lists {sp:?} at id {}, token_to_id gives {via:?}", at[0]));
-        }
-        ids.insert(sp.to_string(), at[0] as u32);
+        ids.insert(sp.to_string(), last as u32);
     }
     Ok((vocab, ids))
 }
@@ -376,14 +384,16 @@ fn build_char(run: &mut Run, cfg: &CharCfg) -> Option<CharSubject> {
         }
         Ok(x) => x,
     };
-    // the alphabet: single-code-point vocabulary entries that are not special tokens
+    // the alphabet: single-code-point vocabulary entries that are not the special listing of a token
     let mut alphabet = HashMap::new();
     for (id, t) in vocab.iter().enumerate() {
         if let Ok(t) = std::str::from_utf8(t) {
             let mut cs = t.chars();
             if let (Some(c), None) = (cs.next(), cs.next()) {
-                if !special.contains_key(t) {
-                    alphabet.insert(c, id as u32);
+                // (an entry spelled like a special token is a character of the alphabet when its id
+                // is not that token's special id; the first listing of a character wins)
+                if special.get(t) != Some(&(id as u32)) {
+                    alphabet.entry(c).or_insert(id as u32);
                 }
             }
         }
@@ -532,7 +542,13 @@ fn main() {
     };
     // second pass: the special-token set with metacharacters, on its fragment alphabet only
     let space2 = Space { n1: 0, n2: count_strings(FRAGMENT_SETS[1].len(), l2), n3: 0, chunk: space.chunk };
+    // third pass: the set with one-byte special tokens, on its fragment alphabet (one symbol shorter)
+    let space3 = Space { n1: 0, n2: count_strings(FRAGMENT_SETS[2].len(), l2 - 1), n3: 0, chunk: space.chunk };
     if let Some(n) = run.describe_unit() {
+        if n >= space.units() + space2.units() {
+            println!("{}", json!({"special_tokens": SPECIAL_SETS[2], "fragment_strings_chunk": n - space.units() - space2.units(), "chunk": space.chunk}));
+            return;
+        }
         if n >= space.units() {
             println!("{}", json!({"special_tokens": SPECIAL_SETS[1], "fragment_strings_chunk": n - space.units(), "chunk": space.chunk}));
             return;
@@ -578,7 +594,7 @@ fn main() {
     run.assumptions.push("a special token's id is the id at which get_vocab lists its spelling (agreeing with token_to_id); the character tokenizer's alphabet is the set of single-code-point non-special vocabulary entries".into());
 
     let (mut parsed_specials, mut unknowns) = (0u64, 0u64);
-    for (v, space, unit0) in [(0usize, &space, 0u64), (1, &space2, space.units())] {
+    for (v, space, unit0) in [(0usize, &space, 0u64), (1, &space2, space.units()), (2, &space3, space.units() + space2.units())] {
     VARIANT.store(v, std::sync::atomic::Ordering::Relaxed);
     let (bcfgs, ccfgs) = (byte_cfgs(), char_cfgs());
     let bytes: Vec<ByteSubject> = bcfgs.iter().filter_map(|c| build_byte(&mut run, c)).collect();
